@@ -478,7 +478,7 @@ func init() {
 		})
 	coreCheck("C41",
 		"token worlds where governance (real gov module: proposal, vote, voting period) adds, updates, resets and removes rate limits with quotas of 0-2 % on (denomination, channel) paths, preferring vouchers whose small supply makes quotas bind; transfers flow both ways with success and error acknowledgements, timeouts, duplicates and replays; the clock jumps across hour boundaries (begin-block window resets are isolated in empty blocks and accepted only when they are full resets). After every block the stored inflow / outflow / channel value of every rate limit must equal the reference model (amounts accepted in the current window minus those undone in it, each packet undone at most once, error-ack receives leave flows unchanged), and accept/refuse must agree with the quota. Non-trivial case = distinct administration outcomes, quota refusals by direction, observed window resets",
-		[]string{"rladm:", "rl-send-refused:", "rl-recv-refused:", "rl-reset:"}, 96, 1200,
+		[]string{"rladm:", "rl-send-refused:", "rl-recv-refused:", "rl-reset:"}, 240, 2400,
 		func(o *CoreOptions, r *rand.Rand, tier string) {
 			tokenOptions(o, r)
 			o.RateLimit, o.TightQuota = true, true
